@@ -144,6 +144,7 @@ class LocalProxy(BaseProxy):
 class RemoteProxy(BaseProxy):
     _channel: Channel
     _reader_task: asyncio.Task[None]
+    _stopped: bool = False
     _outgoing_msg_counter: Iterator[int]
     _mosaik_remote: MosaikProxy
 
@@ -190,14 +191,15 @@ class RemoteProxy(BaseProxy):
         return self._meta
 
     async def send(self, request: Any) -> Any:
-        if self._reader_task.done():
+        if self._stopped or self._reader_task.done():
             # The simulator has closed the connection (or died) while no
-            # request was pending. The channel would wait forever for a
-            # reply that cannot come anymore.
+            # request was pending, or it is being stopped. The channel
+            # would wait forever for a reply that cannot come anymore.
             raise ConnectionResetError("The simulator has closed its connection.")
         return await self._channel.send(request)
 
     async def stop(self) -> None:
+        self._stopped = True
         try:
             await asyncio.wait_for(self._channel.send(["stop", [], {}]), 0.1)
         except (asyncio.TimeoutError, asyncio.IncompleteReadError, ConnectionError):
